@@ -244,8 +244,9 @@ def _check(run, replay, work):
         k = rnd.randint(3, 12)
         text = "".join(rnd.choice(frag) for _ in range(k))
         cases.append((["random"], 0, text))
-    # doctrans is slower: every case in the thorough tier, a seeded third in the quick tier
-    flags = [(not quick) or (i % 3 == run.seed % 3) for i in range(len(cases))]
+    # doctrans costs ~0.35 s per case (three whole-file runs), everything else ~0.01 s: it runs on a seeded third of the cases in the
+    # quick tier; in the thorough tier on every sequence of <= 2 tokens, every random text and a seeded quarter of the 3-token ones
+    flags = [(i % 3 == run.seed % 3) if quick else (len(c[0]) <= 2 or i % 4 == run.seed % 4) for i, c in enumerate(cases)]
     batches = []
     step = 12
     for i in range(0, len(cases), step):
